@@ -158,4 +158,226 @@ theorem coherent_plain (chunks : List Str) (s : Str) (hplain : Plain s) (hcontra
 
 example : Plain "hello wörld 中文 😀".toList := by decide
 
+/-! ## _makeReply and the reply arithmetic -/
+
+/-- A relayed reply is the frame chosen by `_makeReply` (bot hostmask, command, real target, nick prefix:
+`frameLen`) plus its text; the text is the payload stripped of `\x01`, or the 44-byte error text. -/
+theorem makeReply_wire (e : Env) (s : Str) :
+    blen (wire e (makeReply e s)) = frameLen e + blen (replyBody e s) ∧
+    blen (replyBody e s) ≤ max (blen s) (blen Gen.emptyReply) :=
+  ⟨wire_makeReply e s, blen_replyBody_le e s⟩
+
+/-- structure of `ircutils.wrap` when the size handed to `byteTextWrap` is at least 4 -/
+theorem ircWrap_struct (chunks : List Str) (s : Str) (length : Nat) (h4 : (parse s).maxSize + 4 ≤ length) :
+    ∃ raw, byteTextWrap chunks (length - (parse s).maxSize) = .ok raw ∧
+      ircWrap chunks s length = .ok (processLines none raw) ∧ raw.flatten = chunks.flatten ∧
+      (∀ l ∈ raw, blen l ≤ length - (parse s).maxSize) := by
+  obtain ⟨out, h1, h2, h3⟩ := wrapLoop_ok consts_ok.1 (length - (parse s).maxSize) (by omega) (fuelFor chunks) chunks [[]]
+    (Nat.le_refl _) (by intro l hl; simp at hl; subst hl; simp [blen])
+  have hb : byteTextWrap chunks (length - (parse s).maxSize) = .ok out := h1
+  refine ⟨out, hb, ?_, by rw [h2]; simp, h3⟩
+  unfold ircWrap
+  simp only [show ¬ (length < (parse s).maxSize) by omega, ↓reduceIte, hb]
+
+/-- number of lines: at most 8 × the bytes of the text (never 0) -/
+theorem raw_length_le (chunks : List Str) (t : Str) (hcontract : chunks.flatten = munge t) (hne : ∀ c ∈ chunks, c ≠ [])
+    (size : Nat) (h4 : 4 ≤ size) (raw : List Str) (h : byteTextWrap chunks size = .ok raw) :
+    raw.length ≤ max 1 (8 * blen t) := by
+  cases hch : chunks with
+  | nil =>
+    subst hch
+    have : raw = [[]] := by
+      simp [byteTextWrap, wrapLoop] at h; exact h.symm
+    subst this; simp only [List.length_cons, List.length_nil]; omega
+  | cons c cs =>
+    have hne' : chunks ≠ [] := by rw [hch]; simp
+    have h1 := byteTextWrap_lines_nonempty chunks hne' hne size h4 raw h
+    have h2 := blen_flatten_ge_length h1
+    obtain ⟨out, h3, h4', _⟩ := wrap_concat t chunks hcontract size h4
+    rw [h] at h3; injection h3 with h3; subst h3
+    rw [h4'] at h2
+    have := munge_blen_le t
+    omega
+
+/-
+Full statement (every message of a chunked reply, as relayed by the server, fits in 512 bytes, for all
+texts and settings):  `fits_512_partial` without the hypothesis `hco`.  FALSE on the pinned tree for the
+reason given at `ircWrap_fits_partial` (a formatted reply whose re-opened colour code runs into the
+following digits and comma); true outright for text without formatting codes (`fits_512_plain`).
+What was repaired so that it holds at all: the room is measured on the message `_makeReply` really
+builds (`frameLen`), the suffix reserve covers `' \x02(N more messages)\x02'` for every possible `N`,
+`FormatContext.size` counts colour 0 and lone backgrounds.
+-/
+theorem fits_512_partial (e : Env) (cfg : Cfg) (chunks : List Str) (s : Str) (allowed : Nat) (s1 : Str)
+    (hauto : cfg.moresLength = 0)
+    (hprep : prepare e cfg s = some (allowed, s1, false))
+    (hE : blen Gen.emptyReply ≤ allowed)
+    (hcontract : chunks.flatten = munge s1) (hne : ∀ c ∈ chunks, c ≠ [])
+    (h4 : suffixReserve (blen s1) + (parse s1).maxSize + 4 ≤ allowed)
+    (hco : coherent chunks s1 (allowed - suffixReserve (blen s1)) = true) :
+    ∃ now stored, reply e cfg chunks s = .sent now stored ∧
+      ∀ o ∈ now ++ stored.getD [], blen (wire e o) ≤ 512 := by
+  obtain ⟨hc, hk, ht⟩ := consts_ok
+  obtain ⟨hframe, _, _⟩ := prepare_auto ht hc e cfg s allowed s1 false hauto hprep
+  have hlen4 : (parse s1).maxSize + 4 ≤ allowed - suffixReserve (blen s1) := by omega
+  obtain ⟨raw, hraw, hwrap, _, hrawok⟩ := ircWrap_struct chunks s1 _ hlen4
+  have hfit : ∀ l ∈ processLines none raw, blen l ≤ allowed - suffixReserve (blen s1) := by
+    intro l hl
+    unfold coherent at hco
+    rw [hraw] at hco
+    have := processLines_fits hk (parse s1).maxSize _ raw none hco hrawok l hl
+    omega
+  have hcount : (processLines none raw).length ≤ max 1 (8 * blen s1) := by
+    rw [processLines_length]
+    exact raw_length_le chunks s1 hcontract hne _ (by omega) raw hraw
+  have hrep := reply_chunked e cfg chunks s allowed s1 hprep (by omega) _ hwrap
+  refine ⟨_, _, hrep, ?_⟩
+  intro o ho
+  have hmem : o ∈ deliveryOrder e (processLines none raw) := by
+    rcases List.mem_append.mp ho with h | h
+    · exact List.mem_of_mem_take h
+    · split at h
+      · simp at h
+      · simp only [Option.getD_some, List.mem_reverse] at h
+        exact List.mem_of_mem_drop h
+  obtain ⟨j, l, hj, hl, rfl⟩ := mem_deliveryOrder e _ o hmem
+  have htab : Gen.tabFactor = 8 := hc.2.2.2.2.2.2.2.1
+  have hj' : j ≤ Gen.tabFactor * blen s1 := by rw [htab]; omega
+  have h1 := blen_withSuffix_le hk ht j (blen s1) l hj'
+  have h2 := hfit l hl
+  obtain ⟨h3, h5⟩ := makeReply_wire e (withSuffix j l)
+  omega
+
+/-- For a reply without formatting codes, every message of a chunked reply fits in 512 bytes — for every
+target, nick prefix, notice/private/to= combination, bot hostmask, nick and setting of
+reply.mores.{maximum,instant}. -/
+theorem fits_512_plain (e : Env) (cfg : Cfg) (chunks : List Str) (s : Str) (allowed : Nat) (s1 : Str)
+    (hplain : Plain s)
+    (hauto : cfg.moresLength = 0)
+    (hprep : prepare e cfg s = some (allowed, s1, false))
+    (hE : blen Gen.emptyReply ≤ allowed)
+    (hcontract : chunks.flatten = munge s1) (hne : ∀ c ∈ chunks, c ≠ [])
+    (h4 : suffixReserve (blen s1) + 4 ≤ allowed) :
+    ∃ now stored, reply e cfg chunks s = .sent now stored ∧
+      ∀ o ∈ now ++ stored.getD [], blen (wire e o) ≤ 512 := by
+  obtain ⟨hc, hk, ht⟩ := consts_ok
+  obtain ⟨_, hs1, _⟩ := prepare_auto ht hc e cfg s allowed s1 false hauto hprep
+  have hp1 : Plain s1 := by
+    rw [hs1]; unfold truncate
+    split
+    · intro c hc'; exact hplain c (List.mem_of_mem_take hc')
+    · exact hplain
+  have hms : (parse s1).maxSize = 0 := by rw [parse_plain s1 hp1]
+  exact fits_512_partial e cfg chunks s allowed s1 hauto hprep hE hcontract hne (by omega)
+    (coherent_plain chunks s1 hp1 hcontract _ (by omega))
+
+/-- A reply that goes out as one message (reply.mores on) fits in 512 bytes. -/
+theorem single_fits_512 (e : Env) (cfg : Cfg) (chunks : List Str) (s : Str) (allowed : Nat) (s1 : Str)
+    (hauto : cfg.moresLength = 0) (hmores : cfg.mores = true)
+    (hprep : prepare e cfg s = some (allowed, s1, true))
+    (hE : blen Gen.emptyReply ≤ allowed) :
+    reply e cfg chunks s = .sent [makeReply e s1] none ∧ blen (wire e (makeReply e s1)) ≤ 512 := by
+  obtain ⟨hc, hk, ht⟩ := consts_ok
+  obtain ⟨hframe, _, hb⟩ := prepare_auto ht hc e cfg s allowed s1 true hauto hprep
+  constructor
+  · unfold reply; rw [hprep]; simp
+  · simp only [hmores, Bool.not_true, Bool.or_false, true_eq_decide_iff] at hb
+    obtain ⟨h3, h5⟩ := makeReply_wire e s1
+    omega
+
+/-! ## the more protocol -/
+
+/-- Python order of the stored stack: the message at index `j` carries the count `j`, which is the
+number of messages below it, i.e. still stored once it has been delivered. -/
+theorem more_counts (e : Env) (revChunks : List Str) :
+    buildMsgs e revChunks [] = revChunks.mapIdx (fun j c => makeReply e (withSuffix j c)) := by
+  rw [buildMsgs_eq]; simp
+
+/-- In delivery order: the `k`-th message (0-based) of `n` carries line `k` followed by the count
+`n - 1 - k` — the number of messages that remain. -/
+theorem more_counts_delivery (e : Env) (lines : List Str) (k : Nat) :
+    (deliveryOrder e lines)[k]? =
+      (lines[k]?).map (fun l => makeReply e (withSuffix (lines.length - 1 - k) l)) :=
+  deliveryOrder_getElem? e lines k
+
+/-- The first answer of a chunked reply is the first `max instant 1` messages in order; the rest is
+stored, in order, in `_mores` (nothing is stored when everything went out at once). -/
+theorem reply_first_batch (e : Env) (cfg : Cfg) (chunks : List Str) (s : Str) (allowed : Nat) (s1 : Str)
+    (hprep : prepare e cfg s = some (allowed, s1, false))
+    (hres : suffixReserve (blen s1) ≤ allowed)
+    (lines : List Str) (hwrap : ircWrap chunks s1 (allowed - suffixReserve (blen s1)) = .ok lines) :
+    reply e cfg chunks s = .sent ((deliveryOrder e lines).take (max cfg.instant 1))
+      (if (deliveryOrder e lines).length < max cfg.instant 1 then none
+       else some ((deliveryOrder e lines).drop (max cfg.instant 1)).reverse) :=
+  reply_chunked e cfg chunks s allowed s1 hprep hres lines hwrap
+
+/-- First answer plus successive `more` commands, for any batch sizes `ks` (Misc.mores ≥ 1, possibly
+changing between calls): the messages queued are, in order and each exactly once, the first
+`max instant 1 + Σ ks` messages of the reply; what is left in `_mores` is the rest.  In particular
+once `max instant 1 + Σ ks ≥ n` everything has been delivered and the stack is empty. -/
+theorem more_protocol (e : Env) (cfg : Cfg) (chunks : List Str) (s : Str) (allowed : Nat) (s1 : Str)
+    (hprep : prepare e cfg s = some (allowed, s1, false))
+    (hres : suffixReserve (blen s1) ≤ allowed)
+    (lines : List Str) (hwrap : ircWrap chunks s1 (allowed - suffixReserve (blen s1)) = .ok lines)
+    (ks : List Nat) (hks : ∀ k ∈ ks, 1 ≤ k) :
+    ∃ now stored, reply e cfg chunks s = .sent now stored ∧
+      now ++ (runMores ks (stored.getD [])).1.flatten = (deliveryOrder e lines).take (max cfg.instant 1 + ks.sum) ∧
+      (runMores ks (stored.getD [])).2 = ((deliveryOrder e lines).drop (max cfg.instant 1 + ks.sum)).reverse := by
+  refine ⟨_, _, reply_chunked e cfg chunks s allowed s1 hprep hres lines hwrap, ?_⟩
+  have hst : (if (deliveryOrder e lines).length < max cfg.instant 1 then none
+       else some ((deliveryOrder e lines).drop (max cfg.instant 1)).reverse).getD [] =
+       ((deliveryOrder e lines).drop (max cfg.instant 1)).reverse := by
+    split
+    · rename_i h
+      rw [List.drop_of_length_le (by omega)]; rfl
+    · rfl
+  rw [hst]
+  obtain ⟨h1, h2⟩ := runMores_reverse ks hks ((deliveryOrder e lines).drop (max cfg.instant 1))
+  rw [h1, h2, List.drop_drop, List.take_add]
+  exact ⟨rfl, rfl⟩
+
+example : runMores [1, 2] [(⟨[], [], ['c']⟩ : Out), ⟨[], [], ['b']⟩, ⟨[], [], ['a']⟩] =
+    ([[⟨[], [], ['a']⟩], [⟨[], [], ['b']⟩, ⟨[], [], ['c']⟩]], []) := by decide
+
+/-! ## the text itself -/
+
+/-- For a reply without formatting codes, nothing is lost and nothing invented: the chunks are lines
+that concatenate to the (truncated, whitespace-munged) text, each of at most the computed size, and the
+messages delivered are exactly these lines, in order, each followed by its count (`more_counts_delivery`,
+`more_protocol`). -/
+theorem visible_text_plain (e : Env) (cfg : Cfg) (chunks : List Str) (s : Str) (allowed : Nat) (s1 : Str)
+    (hplain : Plain s1)
+    (hprep : prepare e cfg s = some (allowed, s1, false))
+    (hcontract : chunks.flatten = munge s1)
+    (h4 : suffixReserve (blen s1) + 4 ≤ allowed) :
+    ∃ lines, lines.flatten = munge s1 ∧ (∀ l ∈ lines, blen l ≤ allowed - suffixReserve (blen s1)) ∧
+      reply e cfg chunks s = .sent ((deliveryOrder e lines).take (max cfg.instant 1))
+        (if (deliveryOrder e lines).length < max cfg.instant 1 then none
+         else some ((deliveryOrder e lines).drop (max cfg.instant 1)).reverse) := by
+  obtain ⟨lines, h1, h2, h3⟩ := ircWrap_plain chunks s1 hplain hcontract (allowed - suffixReserve (blen s1)) (by omega)
+  exact ⟨lines, h2, h3, reply_chunked e cfg chunks s allowed s1 hprep (by omega) lines h1⟩
+
+/-! ## non-vacuity: a concrete chunked reply meets the hypotheses of the theorems above -/
+
+def exEnv : Env :=
+  { botPrefix := "test!".toList ++ List.replicate 395 'h', nick := "al".toList, msgTarget := "#c".toList,
+    msgIsChannel := true, to := none, pubTo := false, pubNick := false, pubMsgTarget := true,
+    notice := none, priv := none, prefixNick := none, stripCtcp := true, confWithNotice := false,
+    confInPrivate := false, confWithNickPrefix := true, confNoticeWhenPrivate := true }
+def exCfg : Cfg := { moresLength := 0, maximumMores := 50, instant := 1, mores := true }
+def exText : Str := List.replicate 100 'x' ++ ' ' :: List.replicate 100 'y'
+def exChunks : List Str := [List.replicate 100 'x', [' '], List.replicate 100 'y']
+
+example : prepare exEnv exCfg exText = some (92, exText, false) ∧ blen Gen.emptyReply ≤ 92 ∧
+    exChunks.flatten = munge exText ∧ (∀ c ∈ exChunks, c ≠ []) ∧
+    suffixReserve (blen exText) + (parse exText).maxSize + 4 ≤ 92 ∧
+    coherent exChunks exText (92 - suffixReserve (blen exText)) = true ∧ Plain exText ∧
+    suffixReserve (blen exText) = 23 := by decide +kernel
+
+example : ∃ lines, ircWrap exChunks exText (92 - suffixReserve (blen exText)) = .ok lines := by
+  obtain ⟨l, h, _⟩ := ircWrap_plain exChunks exText (by decide +kernel) (by decide +kernel) (92 - suffixReserve (blen exText)) (by decide +kernel)
+  exact ⟨l, h⟩
+
+example : prepare exEnv exCfg "short".toList = some (92, "short".toList, true) := by decide +kernel
+
 end C12
